@@ -30,4 +30,14 @@ def hFloatTok (j : Json) : R Json := do
     | _ => throw "floatTok: [bits, token] expected")
   pure <| jObj [("verdicts", jArr (vs.map jStr))]
 
+/-- {"op":"floatRead","tokens":[…]} → {"values":["<bits>"|"inf"|"-inf"|"nan"|"not-a-number"|"uncertified"…]}: what a correctly
+    rounding reader returns for each token (computed, then certified by `RoundsTo`; FloatText.readTok) -/
+def hFloatRead (j : Json) : R Json := do
+  let toks ← listF str j "tokens"
+  let vs := toks.map (fun t => match FloatText.readTok t with
+    | .bits b => toString b
+    | .inf false => "inf" | .inf true => "-inf" | .nan => "nan"
+    | .notANumber => "not-a-number" | .uncertified => "uncertified")
+  pure <| jObj [("values", jArr (vs.map jStr))]
+
 end Drv
